@@ -48,8 +48,12 @@ def addAll (s : Sys) : List (Rat × Nat) → Sys
   | [] => s
   | (time, id) :: rest => addAll (addCallback s time id) rest
 
-/-- the coalescing threshold `1e-6` -/
-def eps : Rat := 1 / 1000000
+/-- the coalescing threshold: the *exact* value of the IEEE-754 double the literal `1e-6` of
+`evolve_until` denotes, `4722366482869645 · 2⁻⁷²` (slightly below `10⁻⁶`).  The harness reads the
+constant out of the running code object and compares it with this number (driver op `eps`);
+`Properties/C20.lean` proves that no double lies strictly between it and `10⁻⁶`
+(`eps_decimal_bridge`), so for double `dt` the test `dt > eps` is the test `dt > 10⁻⁶`. -/
+def eps : Rat := 4722366482869645 / 4722366482869645213696
 
 /-- `if integration_time > 1e-6: integrate(dt); t += dt` -/
 def advance (s : Sys) (dt : Rat) : Sys × List Event :=
@@ -58,7 +62,6 @@ def advance (s : Sys) (dt : Rat) : Sys × List Event :=
 inductive Status where
   | ok
   | backwards           -- ValueError('Backwards evolution is not allowed.')
-  | emptyQueue          -- IndexError from `self.callbacks[0]` (the code before the repair)
   | outOfFuel
 deriving Repr, DecidableEq
 
@@ -89,24 +92,6 @@ def loop (kids : Entry → List (Rat × Nat)) (T : Rat) : Nat → Sys → Run
 
 def evolveUntil (kids : Entry → List (Rat × Nat)) (fuel : Nat) (s : Sys) (T : Rat) : Run :=
   if T < s.t then ⟨.backwards, s, []⟩ else loop kids T fuel s
-
-/-- The loop as it stood before the `fix:` commit: `self.callbacks[0]` is read unconditionally. -/
-def loopOld (kids : Entry → List (Rat × Nat)) (T : Rat) : Nat → Sys → Run
-  | 0, s => ⟨.outOfFuel, s, []⟩
-  | fuel + 1, s =>
-    match s.queue with
-    | e :: rest =>
-      if e.time < T then
-        let a := advance { s with queue := rest } (e.time - s.t)
-        let r := loopOld kids T fuel (addAll a.1 (kids e))
-        { r with trace := a.2 ++ Event.fire e a.1.t :: r.trace }
-      else
-        let a := advance s (T - s.t)
-        ⟨.ok, a.1, a.2⟩
-    | [] => ⟨.emptyQueue, s, []⟩
-
-def evolveUntilOld (kids : Entry → List (Rat × Nat)) (fuel : Nat) (s : Sys) (T : Rat) : Run :=
-  if T < s.t then ⟨.backwards, s, []⟩ else loopOld kids T fuel s
 
 /-- Sum of the integration intervals of a trace. -/
 def sumDt : List Event → Rat
@@ -161,15 +146,31 @@ deriving Repr
 
 def hinit : Hist := { s := init, hz := 0, trace := [], created := [] }
 
-/-- One interface call on a history.  A refused (backwards) `evolve_until` changes nothing. -/
+/-- One interface call on a history.  State, trace and created entries are always taken from what
+`evolveUntil` returns — that a refused (backwards) call changes nothing is a *theorem*
+(`stepOp_backwards`, from `backwards_refused`), not part of this definition; only `hz`, by its
+meaning "largest *accepted* target", looks at the status. -/
 def stepOp (kids : Entry → List (Rat × Nat)) (fuel : Nat) (h : Hist) : Op → Hist
   | .add time id =>
     { h with s := addCallback h.s time id, created := h.created ++ [⟨time, h.s.ctr, id⟩] }
   | .evolve T =>
     let r := evolveUntil kids fuel h.s T
-    if r.status = .backwards then h else
-    { s := r.s, hz := if h.hz < T then T else h.hz, trace := h.trace ++ r.trace,
+    { s := r.s, hz := if r.status = .backwards then h.hz else if h.hz < T then T else h.hz,
+      trace := h.trace ++ r.trace,
       created := h.created ++ spawned kids h.s.ctr (fired r.trace) }
+
+/-- consecutive entries strictly increasing in `(time, counter)`; equivalent to `List.Pairwise
+Entry.lt` (`sortedB_iff` in Lemmas/SchedulerStrong.lean), printed by the driver op `hist` -/
+def sortedB : List Entry → Bool
+  | x :: y :: rest => decide (x.lt y) && sortedB (y :: rest)
+  | _ => true
+
+/-- The clock shown to the last callback of a trace (`t` if none ran): the clock from which the final
+stretch to the target is bridged. -/
+def lastFireClock : Rat → List Event → Rat
+  | t, [] => t
+  | t, Event.integrate _ :: tr => lastFireClock t tr
+  | _, Event.fire _ clk :: tr => lastFireClock clk tr
 
 def runOps (kids : Entry → List (Rat × Nat)) (fuel : Nat) (h : Hist) (ops : List Op) : Hist :=
   ops.foldl (stepOp kids fuel) h
